@@ -15,7 +15,7 @@ LEVEL = "exploration"
 def specs_for(ctx):
     rng = random.Random(ctx.seed + 6)
     specs = []
-    for i in range(ctx.pick(120, 1000)):
+    for i in range(ctx.pick(120, 3000)):
         r = rng.random()
         if r < 0.25:
             tissue = {"kind": "catalogue", "base": rng.choice(["hexflower", "hex33", "irregular", "brick33"]),
@@ -37,7 +37,7 @@ def specs_for(ctx):
                       # a fifth of the pairs transform the live objects in place between two analyses instead of rebuilding
                       "inplace": (not simB["reflect"]) and rng.random() < 0.25})
     # dynamic inference with adimensional velocities: the same series in two unit systems (time x alpha, length x beta)
-    for i in range(ctx.pick(40, 600)):
+    for i in range(ctx.pick(40, 1500)):
         nframes = rng.choice([2, 3, 4])
         tissue = {"kind": "equilibrium", "ncells": rng.choice([6, 10, 16]), "mobius": rng.choice([0.0, 0.8])} if rng.random() < 0.7 else \
                  {"kind": "catalogue", "base": rng.choice(["hex33", "irregular"]), "sagitta": rng.choice([None, 0.15]), "tseed": rng.randrange(10 ** 6)}
